@@ -162,6 +162,36 @@ def rule_ow_sql(cx, rep, port='py'):
             rep.holds(key, c, 'SELECT template; every formatted value is validated by an anchored pattern whose language is within [A-Za-z0-9_]* (regex inclusion decided by automata), guard dominates the call')
 
 
+def rule_ow_conn(cx, rep, port='py'):
+    """the sqlite connection belongs to the caller: the adapter only creates cursors on it and runs SELECTs; it never commits, rolls
+    back, closes it or uses it as a context manager (`with connection:` commits on success and rolls back on an exception, i.e.
+    it ends the caller's open transaction either way)"""
+    p = cx.port('py')
+    if 'rbql_sqlite' not in p.modules:
+        raise Undecided('rbql_sqlite module missing')
+    mod = p.modules['rbql_sqlite']
+    n = 0
+    bad = None
+    for fd in p.funcs_in('rbql_sqlite'):
+        conn = {a.arg for a in fd.args.args if 'connection' in a.arg}
+        conn |= {'self.' + x for x in ('db_connection', 'connection')}
+        for x in walk_no_nested(fd):
+            if isinstance(x, ast.With):
+                for it in x.items:
+                    if (dotted(it.context_expr) or '') in conn:
+                        bad = (x, '`with {}:` in {} commits or rolls back the caller\'s open transaction'.format(dotted(it.context_expr), fd.name))
+            if isinstance(x, ast.Call) and isinstance(x.func, ast.Attribute) and (dotted(x.func.value) or '') in conn:
+                n += 1
+                if x.func.attr not in ('cursor',):
+                    if x.func.attr in ('commit', 'rollback', 'close', 'executescript', 'execute', 'executemany', 'backup', 'create_function', 'set_authorizer', 'interrupt', '__enter__', '__exit__'):
+                        bad = bad or (x, '{} calls {}() on the caller\'s connection'.format(fd.name, x.func.attr))
+    if bad:
+        rep.violated('caller\'s connection', bad[0], bad[1] + ': the database (or the caller\'s pending changes) can be altered by a query')
+    else:
+        rep.holds('caller\'s connection', (p.files['rbql_sqlite'], 0), 'the connection is only used to create cursors ({} uses)'.format(n))
+    rep.require_count('connection uses', n, 1, (p.files['rbql_sqlite'], 0))
+
+
 def _format_parts(e):
     if isinstance(e, ast.Call) and isinstance(e.func, ast.Attribute) and e.func.attr == 'format' and isinstance(e.func.value, ast.Constant) and isinstance(e.func.value.value, str) and not e.keywords:
         return e.func.value.value, list(e.args)
